@@ -83,8 +83,9 @@ theorem isort_isort_lex {α : Type} (lt1 lt2 : α → α → Bool) (s1 : StrictW
     isort lt1 (isort lt2 xs) = isort (lexLt lt1 lt2) xs :=
   Proofs.C11.isort_isort_lex s1 s2 xs
 
-/-- **Impl = Spec on D** for every sort argument (`None`, `[]`, a lone `$natural`, key lists). -/
-theorem sorted_eq_spec_partial (sort : Option SortSpec) (docs : List Val)
+/-- **Impl = Spec on D** for every sort argument (`None`, `[]`, a lone `$natural`, key lists);
+    D contains array-valued keys and keys reached through arrays of sub-documents. -/
+theorem sorted_eq_spec (sort : Option SortSpec) (docs : List Val)
     (h : sortD sort docs = true) : getDataset sort docs = .ok (sortDocs sort docs) :=
   getDataset_eq_spec sort docs h
 
@@ -104,90 +105,95 @@ theorem spec_sorted_perm_stable (spec : SortSpec) (docs : List Val)
 example : loneNatural [("a", 1), ("$natural", -1)] = none := by decide
 example : sortD (some [("$natural", -1)]) sample = true := by decide +kernel
 
-/-- The full-strength statement: whenever the sort returns, it returns the oracle's sequence. -/
-def sorted_eq_spec_full : Prop :=
-  ∀ sort docs out, getDataset sort docs = .ok out → out = sortDocs sort docs
-
 def wA : Val := .doc [("_id", .int 0), ("a", .arr [.int 1, .int 5])]
 def wB : Val := .doc [("_id", .int 1), ("a", .arr [.int 3])]
+def wC : Val := .doc [("_id", .int 2), ("a", .arr [])]
+def wD : Val := .doc [("_id", .int 3), ("a", .arr [.doc [("x", .int 9)], .doc [("x", .int 0)]])]
 
 def idInt : Val → Int
   | .doc (("_id", .int i) :: _) => i
   | _ => -1
 
-/-- It is false of the code as it stands (known finding `arraykey`): an array-valued sort key is
-    sorted by its first element; descending, MongoDB uses the largest element.  The same witness
-    is replayed on the real code by the check. -/
-theorem sorted_eq_spec_full_fails : ¬ sorted_eq_spec_full := by
-  intro h
-  have h1 : (getDataset (some [("a", -1)]) [wA, wB]).map (List.map idInt) = .ok [1, 0] := by
-    decide +kernel
-  cases hg : getDataset (some [("a", -1)]) [wA, wB] with
-  | error e => rw [hg] at h1; cases h1
-  | ok out =>
-    rw [hg] at h1
-    have h2 : out.map idInt = [1, 0] := by injection h1
-    have h3 := congrArg (List.map idInt) (h _ _ _ hg)
-    rw [h2] at h3
-    revert h3
-    decide +kernel
+/-- Array-valued keys are inside the domain (formerly the known finding `arraykey`: the code
+    sorted by the first element and `{a: [3]}` came before `{a: [1, 5]}` in a descending sort)… -/
+example : sortD (some [("a", -1)]) [wA, wB, wC] = true ∧ sortD (some [("a.x", 1)]) [wA, wD] = true :=
+  ⟨by decide +kernel, by decide +kernel⟩
 
-/-- The full-strength statement about raising: a sort by ordinary keys never raises. -/
-def sort_never_raises_full : Prop :=
-  ∀ (spec : SortSpec) docs, (∀ kd ∈ spec, startsWithDollar kd.1 = false) →
-    ∃ out, getDataset (some spec) docs = .ok out
+/-- …descending by the largest element, ascending by the smallest, an empty array first -/
+example : (getDataset (some [("a", -1)]) [wA, wB, wC]).map (List.map idInt) = .ok [0, 1, 2] ∧
+    (getDataset (some [("a", 1)]) [wB, wA, wC]).map (List.map idInt) = .ok [2, 0, 1] := by
+  decide +kernel
 
-/-- False as it stands (known finding `objectid`): `mongomock.ObjectId` has no ordering, sorting
-    two of them raises TypeError. -/
-theorem sort_never_raises_full_fails : ¬ sort_never_raises_full := by
-  intro h
-  obtain ⟨out, ho⟩ := h [("a", 1)]
-    [.doc [("_id", .int 0), ("a", .oid 0)], .doc [("_id", .int 1), ("a", .oid 1)]]
-    (by decide)
-  have h1 : isOk (getDataset (some [("a", 1)])
-      [.doc [("_id", .int 0), ("a", .oid 0)], .doc [("_id", .int 1), ("a", .oid 1)]])
-      = false := by decide +kernel
-  rw [ho] at h1
-  cases h1
+/-- A sort by ordinary keys over in-domain documents never raises.  (Formerly refuted outside the
+    domain by two ObjectIds, which had no ordering; ObjectIds the case supplies are now inside
+    the domain and ordered by their value.) -/
+theorem sort_never_raises (spec : SortSpec) (docs : List Val) (h : specReasons spec docs = []) :
+    ∃ out, getDataset (some spec) docs = .ok out :=
+  ⟨_, sortRounds_eq applySortKey applySortKey_plain spec docs (specOk_of_reasons _ _ h)⟩
+
+def oA : Val := .doc [("_id", .int 0), ("a", .oid 1)]
+def oB : Val := .doc [("_id", .int 1), ("a", .oid 0)]
+def oC : Val := .doc [("_id", .int 2), ("a", .bool false)]
+def oD : Val := .doc [("_id", .int 3), ("a", .str "s")]
+
+/-- the former witness is inside the domain… -/
+example : specReasons [("a", 1)] [oA, oB, oC, oD] = [] := by decide +kernel
+
+/-- …and sorts by value, ObjectIds between strings and booleans -/
+example : (getDataset (some [("a", 1)]) [oA, oB, oC, oD]).map (List.map idInt) = .ok [3, 1, 0, 2] := by
+  decide +kernel
 
 /-- **Extended (`desc_reverses_keeps_ties`).** One descending key: the output is the stable sort
-    by the reversed order — sorted descending, and every tie class (the same classes as for the
-    ascending sort) in natural order, not reversed. -/
+    by the reversed order of the documents' largest reached values (`dirLt key true`) — sorted
+    descending, and every tie class in natural order, not reversed. -/
 theorem desc_reverses_keeps_ties (key : String) (docs : List Val)
     (h : ∀ d ∈ docs, keyReasons key d = []) :
     ∃ out, sortedByKey key true docs = .ok out ∧ out.Perm docs ∧
-      Sorted (fun a b => ascLt key b a) out ∧ StableWrt (ascLt key) out docs := by
+      Sorted (fun a b => dirLt key true b a) out ∧ StableWrt (dirLt key true) out docs := by
   refine ⟨_, sortedByKey_desc key docs h, isort_perm _ _,
-    isort_sorted (strictWeak_ascLt key).flip _, ?_⟩
-  have := isort_stable (strictWeak_ascLt key).flip docs
+    isort_sorted (strictWeak_dirLt key true).flip _, ?_⟩
+  have := isort_stable (strictWeak_dirLt key true).flip docs
   unfold StableWrt at this ⊢
   rw [tie_flip] at this
   exact this
 
 example : ∀ d ∈ sample, keyReasons "a" d = [] := by decide +kernel
 
+/-- …and one ascending key: the stable sort by the smallest reached values -/
+theorem asc_sorts_by_smallest (key : String) (docs : List Val)
+    (h : ∀ d ∈ docs, keyReasons key d = []) :
+    ∃ out, sortedByKey key false docs = .ok out ∧ out.Perm docs ∧
+      Sorted (dirLt key false) out ∧ StableWrt (dirLt key false) out docs :=
+  ⟨_, sortedByKey_asc key docs h, isort_perm _ _, isort_sorted (strictWeak_dirLt key false) _,
+    isort_stable (strictWeak_dirLt key false) _⟩
+
+example : ∀ d ∈ [wA, wB, wC, wD], keyReasons "a.x" d = [] ∧ keyReasons "a" wA = [] := by
+  decide +kernel
+
 /-- the generic fact: CPython's reverse-sort-reverse is the stable sort by the flipped order -/
 theorem reverse_sort_reverse {α : Type} (lt : α → α → Bool) (sw : StrictWeak lt) (xs : List α) :
     (isort lt xs.reverse).reverse = isort (fun a b => lt b a) xs :=
   reverse_isort_reverse sw xs
 
-/-- **Extended (`missing_sorts_as_null`).** A document in which the sort key is missing and one
-    in which it is an explicit null get the same key `(1, None)`; they tie. -/
-theorem missing_sorts_as_null (key : String) (a b : Val) (ha : resolveKey key a = .ok none)
-    (hb : resolveKey key b = .ok (some .null)) :
-    resolveSortKey key a = resolveSortKey key b ∧
-    docKeyLt key a b = .ok false ∧ docKeyLt key b a = .ok false :=
-  ⟨by rw [resolveSortKey_missing key a ha, resolveSortKey_null key b hb],
-   missing_ties_null key a b ha hb⟩
+/-- **Extended (`missing_sorts_as_null`).** A document in which the sort key reaches nothing and
+    one in which it is an explicit null get the same key `(1, None)`, in either direction; they
+    tie. -/
+theorem missing_sorts_as_null (key : String) (rev : Bool) (a b : Val) (ha : Missing key a)
+    (hb : candsKey key b = .ok [some .null]) :
+    resolveSortKey key rev a = resolveSortKey key rev b ∧
+    docKeyLt key rev a b = .ok false ∧ docKeyLt key rev b a = .ok false :=
+  ⟨by rw [resolveSortKey_missing key rev a ha, resolveSortKey_null key rev b hb],
+   missing_ties_null key rev a b ha hb⟩
 
-example : resolveKey "a" d2 = .ok none ∧ resolveKey "a" d4 = .ok (some .null) := ⟨rfl, rfl⟩
+example : Missing "a" d2 ∧ candsKey "a" d4 = .ok [some .null] :=
+  ⟨Or.inr rfl, rfl⟩
 
 /-! ## skip and limit -/
 
 /-- **Extended (`cursor_final_settings`).** For every constructor call and every sequence of
     cursor-method calls and slices, the model's cursor and the oracle's "last value wins"
-    settings both reject the sequence or both accept it and describe the same request — up to the
-    empty-slice defect recorded in `Rel` (the oracle's limit `some 0` is the model's "no limit"). -/
+    settings both reject the sequence or both accept it and describe the same request (`Rel`:
+    same sort, same skip, same effective limit — an empty slice is the limit `some 0`). -/
 theorem cursor_final_settings (sort : Option SortSpec) (skip limit : Int) (ops : List CurOp) :
     (∃ e, (Cursor.new sort skip limit).run ops = .error e ∧
           (Settings.new sort skip limit).run ops = none) ∨
@@ -201,59 +207,65 @@ theorem last_call_wins (c0 c' : Cursor) (ops1 ops2 : List CurOp) (op : CurOp)
     (h : c0.run (ops1 ++ op :: ops2) = .ok c') :
     ∃ c1 c2, c0.run ops1 = .ok c1 ∧ c1.step op = .ok c2 ∧
       ((∀ o ∈ ops2, setsSkip o = false) → c'.skip = c2.skip) ∧
-      ((∀ o ∈ ops2, setsLimit o = false) → implLim c'.limit = implLim c2.limit) ∧
+      ((∀ o ∈ ops2, setsLimit o = false) → effLim c' = effLim c2) ∧
       ((∀ o ∈ ops2, setsSort o = false) → c'.sort = c2.sort) :=
   Proofs.C11.last_call_wins c0 c' ops1 ops2 op h
 
 example : (Cursor.new none 0 0).run ([.limit 3, .slice (some 1) none] ++ .skip 2 ::
-    [.sortKey "a" none, .limit (-4), .clone]) = .ok ⟨some [("a", 1)], 2, some (-4)⟩ := by
+    [.sortKey "a" none, .limit (-4), .clone]) = .ok ⟨some [("a", 1)], 2, some (-4), false⟩ := by
   decide +kernel
 
 /-- **Core (`slice_spec`).** However skip and limit were set — `find` arguments, `.skip()`,
-    `.limit()` with a negative or zero argument, slices, `clone` — if the request ends with a
-    non-negative skip and is not an empty slice, the cursor returns exactly
+    `.limit()` with a negative or zero argument, slices (empty ones included), `clone` — if the
+    request ends with a non-negative skip, the cursor returns exactly
     `(sorted.drop skip).take limit` of the oracle's sorted sequence. -/
-theorem slice_spec_partial (sort : Option SortSpec) (skip limit : Int) (ops : List CurOp)
+theorem slice_spec (sort : Option SortSpec) (skip limit : Int) (ops : List CurOp)
     (c : Cursor) (docs : List Val) (hc : (Cursor.new sort skip limit).run ops = .ok c) :
     ∃ s, (Settings.new sort skip limit).run ops = some s ∧
-      (0 ≤ s.skip → s.limit ≠ some 0 → sortD s.sort docs = true →
+      (0 ≤ s.skip → sortD s.sort docs = true →
         c.results docs = .ok (window s.skip.toNat s.limit (sortDocs s.sort docs))) := by
   rcases run_rel ops _ _ (rel_new sort skip limit) with ⟨e, h1, _⟩ | ⟨c', s, h1, h2, h3⟩
   · rw [h1] at hc; cases hc
   · rw [h1] at hc
     cases hc
-    refine ⟨s, h2, fun hs hl hd => ?_⟩
+    refine ⟨s, h2, fun hs hd => ?_⟩
     have hsort : c.sort = s.sort := h3.1
     simp only [Cursor.results, hsort, getDataset_eq_spec s.sort docs hd]
-    rw [window_eq_spec c s _ h3 hs hl]
+    rw [window_eq_spec c s _ h3 hs]
 
 /-- the hypotheses are inhabited by a request set in several ways at once -/
 example : ∃ s, (Settings.new (some [("a", 1)]) 7 0).run
       [.limit (-2), .slice (some 1) (some 4), .clone, .sortList [("b", -1), ("a", 1)]] = some s ∧
-    0 ≤ s.skip ∧ s.limit ≠ some 0 ∧ sortD s.sort sample = true :=
-  ⟨⟨some [("b", -1), ("a", 1)], 1, some 3⟩, by decide +kernel, by decide, by decide,
-    by decide +kernel⟩
+    0 ≤ s.skip ∧ sortD s.sort sample = true :=
+  ⟨⟨some [("b", -1), ("a", 1)], 1, some 3⟩, by decide +kernel, by decide, by decide +kernel⟩
 
-/-- The full-strength statement (no "not an empty slice" hypothesis), on any list. -/
-def slice_spec_full : Prop :=
-  ∀ (ops : List CurOp) (c : Cursor) (s : Settings) (xs : List Nat),
-    (Cursor.new none 0 0).run ops = .ok c → (Settings.new none 0 0).run ops = some s →
-    0 ≤ s.skip → c.window xs = window s.skip.toNat s.limit xs
+/-- …and by an empty slice, kept by `clone` and by a later `skip` -/
+example : ∃ s, (Settings.new none 0 5).run [.slice (some 2) (some 2), .clone, .skip 1] = some s ∧
+    0 ≤ s.skip ∧ s.limit = some 0 ∧ sortD s.sort sample = true :=
+  ⟨⟨none, 1, some 0⟩, by decide +kernel, by decide, rfl, by decide +kernel⟩
 
-/-- It is false of the code as it stands (known finding `emptyslice`): `cursor[2:2]` stores
-    limit 0, which `_compute_results` reads as "no limit", and returns the tail. -/
-theorem slice_spec_full_fails : ¬ slice_spec_full := by
-  intro h
-  have := h [.slice (some 2) (some 2)] ⟨none, 2, some 0⟩ ⟨none, 2, some 0⟩ [10, 11, 12, 13]
-    (by decide +kernel) (by decide +kernel) (by decide)
-  revert this
-  decide +kernel
+/-- The slicing alone, on any list (formerly refuted by `cursor[2:2]`, which returned the tail):
+    whatever the calls, the window the cursor cuts is the oracle's window. -/
+theorem slice_window_spec {α : Type} (ops : List CurOp) (c : Cursor) (s : Settings)
+    (xs : List α) (hc : (Cursor.new none 0 0).run ops = .ok c)
+    (hs : (Settings.new none 0 0).run ops = some s) (h0 : 0 ≤ s.skip) :
+    c.window xs = window s.skip.toNat s.limit xs := by
+  rcases run_rel ops _ _ (rel_new none 0 0) with ⟨e, h1, _⟩ | ⟨c', s', h1, h2, h3⟩
+  · rw [h1] at hc; cases hc
+  · rw [h1] at hc; rw [h2] at hs
+    cases hc; cases hs
+    exact window_eq_spec c s xs h3 h0
 
-/-- the slicing of `_compute_results` alone: for a non-negative skip it is `drop` then `take |l|`
-    (a limit of `None`/0 takes everything) -/
+/-- the former counterexample: `cursor[2:2]` selects nothing -/
+example : ∃ c, (Cursor.new none 0 0).run [.slice (some 2) (some 2)] = .ok c ∧
+    c.window [10, 11, 12, 13] = [] :=
+  ⟨⟨none, 2, some 0, true⟩, by decide +kernel, by decide +kernel⟩
+
+/-- the slicing of `_compute_results` alone: for a non-negative skip it is `drop` then
+    `take |l|` (a limit of `None`/0 takes everything, an empty slice nothing) -/
 theorem window_is_drop_take {α : Type} (c : Cursor) (xs : List α) (h : 0 ≤ c.skip) :
-    c.window xs = window c.skip.toNat (implLim c.limit) xs :=
-  window_eq_implLim c xs h
+    c.window xs = window c.skip.toNat (effLim c) xs :=
+  window_eq_effLim c xs h
 
 /-- **Core (`count_eq_slice_length`).** `count_documents(filter, skip=s, limit=l)` is the length
     of the slice that `find(filter).skip(s).limit(l)` returns — and of the oracle's window. -/
@@ -265,17 +277,17 @@ theorem count_eq_slice_length (docs : List Val) (sort : Option SortSpec) (skip l
       = .ok ((window skip.toNat (some l.toNat) docs).length : Nat) := by
   have h2 := countDocuments_num docs skip l hs hl
   refine ⟨?_, h2⟩
-  rw [h2, window_eq_implLim _ _ (by simpa [Cursor.new] using hs)]
+  rw [h2, window_eq_effLim _ _ (by simpa [Cursor.new] using hs)]
   have hl0 : l ≠ 0 := by omega
   have e : l.natAbs = l.toNat := by omega
-  simp [Cursor.new, hl0, implLim, e]
+  simp [Cursor.new, hl0, implLim, effLim, e]
 
 theorem count_eq_slice_length_nolimit (docs : List Val) (sort : Option SortSpec) (skip : Int)
     (hs : 0 ≤ skip) :
     countDocuments docs.length skip .absent
       = .ok (((Cursor.new sort skip 0).window docs).length : Nat) := by
-  rw [countDocuments_absent docs skip hs, window_eq_implLim _ _ (by simpa [Cursor.new] using hs)]
-  simp [Cursor.new, implLim]
+  rw [countDocuments_absent docs skip hs, window_eq_effLim _ _ (by simpa [Cursor.new] using hs)]
+  simp [Cursor.new, implLim, effLim]
 
 example : (0 : Int) ≤ 2 ∧ (0 : Int) < 7 := by decide
 
